@@ -109,7 +109,7 @@ def run(ctx):
     sc = targets.scan(ctx, 'Container._transfer')
     uscan.report_sinks(ctx, lambda cat: 'C02.R1' if cat in ('convert-from-unit', 'sum-mix', 'add-units', 'to-storage',
                                                             'qstr', 'storage-label', 'compare-units', 'store-contents',
-                                                            'from-storage') else None, sc)
+                                                            'from-storage', 'round-then-scale') else None, sc)
     seen_units = set()
     for o in options:
         v = strip_refs(o)
